@@ -58,9 +58,26 @@ def main():
     crashes = walk.run_cases(c, asan, "render", inp, p, "template-render")
     c.stage("harness", cases=len(cases), crashes=crashes)
     if os.path.exists(p) and os.path.getsize(p):
-        r = c.tlc("OracleTemplate", env={"TRACE": p}, name="OracleTemplate", timeout=3400, xmx="24g", xss="512m")
+        # canary: the event with the longest fully literal output once more with one unit changed in the middle - the oracle has to
+        # report it (long payloads are printed over many lines; a collector that loses them once hid real mismatches, DESIGN 0.6)
         evs = vf.read_ndjson(p)
+        cand = [e for e in evs if len(e["out"]) > 400 and e["prefix"] == 1 and e["wsame"] == 1 and e["vsame"] == 1]
+        canary_line = 0
+        if cand:
+            e = dict(max(cand[:2000], key=lambda x: len(x["out"])))
+            o = list(e["out"])
+            o[len(o) // 2] = 1 + (o[len(o) // 2] % 120)
+            e["out"] = o
+            with open(p, "a") as f:
+                f.write(json.dumps(e, separators=(",", ":")) + "\n")
+            canary_line = len(evs) + 1
+        r = c.tlc("OracleTemplate", env={"TRACE": p}, name="OracleTemplate", timeout=3400, xmx="24g", xss="512m")
         bad = {t[1]: t[2] for t in r.tuples("MISMATCH")}
+        if canary_line:
+            skipped_c = canary_line in set(t[1] for t in r.tuples("SKIPPED"))
+            if canary_line not in bad and not skipped_c:
+                raise vf.MachineryError("the canary event (one unit changed in a %d-unit output) was not reported by the oracle" % len(o))
+            bad.pop(canary_line, None)
         for l in sorted(bad)[:300]:
             e = evs[l - 1]
             exp = bad[l]
@@ -70,7 +87,7 @@ def main():
         partial = len(set(t[1] for t in r.tuples("PARTIAL")))
         skipped = len(set(t[1] for t in r.tuples("SKIPPED")))
         c.stage("oracle", events=len(evs), mismatches=len(bad), partially_judged=partial, not_judged_too_many_unjudged_nodes=skipped, fully_judged=len(evs) - partial - skipped)
-        nn = max(0, r.distinct - 65)
+        nn = max(0, r.distinct - 65 - (1 if canary_line else 0))
         c.count(n_eval=nn, validated=nn - len(bad), distinct_keys=[tuple(e["t"]) for e in evs])
         kinds = {}
         def walk_nodes(ns):
